@@ -4,6 +4,27 @@ package main
 // (with other interpreters created and used in between) and in fresh processes
 // must give the same printed value, the same captured stdout and the same
 // error text.
+//
+// Every run happens in a worker process (this binary re-executed); the parent only
+// deals the cases out and collects the observations. A case is observed
+//   - "seq":    reps times in a row in one process, each time in a fresh interpreter,
+//               with other interpreters ("polluters") created and used in between:
+//               generic ones (structs, records, packages, gensyms, pointer and slice
+//               types, pointer variables) and ones made for the case (a different
+//               struct declared under every struct/defmap name the case uses);
+//   - "proc":   once per process in three (thorough: six) processes that run the
+//               cases of the shard in different orders (forward, backward, shuffled),
+//               so that every case is seen after different histories, and the first
+//               of each order in a really fresh process;
+//   - "poison": once in a process whose first interpreter did something that is
+//               hostile to the process-wide tables ((struct int64 ...), (derefSet
+//               (& int64) string)); fixed probes and walks only;
+//   - the "nodemo" cases run in processes whose host has NOT registered the demo Go
+//     types, and (registerDemoFunctions) is among their polluters.
+// Next to each observation the run records the facts about the process it ran in that
+// the named deviations of DetermTrace.tla speak about (pre): foreign struct
+// declarations of names the program uses, the registered-type list, Go types
+// registered from a script.
 
 import (
 	"bytes"
@@ -25,11 +46,13 @@ import (
 )
 
 type determCase struct {
-	ID   string   `json:"id"`
-	Src  string   `json:"src"`
-	Text string   `json:"text"`
-	Obs  []any    `json:"obs"`  // one observation per run: [kind, printed-or-error, stdout]
-	Runs []string `json:"runs"` // where each run happened: "inproc", "inproc-after-pollution", "process"
+	ID   string     `json:"id"`
+	Src  string     `json:"src"`
+	Text string     `json:"text"`
+	Reps int        `json:"reps,omitempty"` // runs of the in-process sequence (default 4)
+	Obs  []any      `json:"obs"`            // one observation per run: [kind, printed-or-error, stdout]
+	Runs []string   `json:"runs"`           // where each run happened: "seq0".., "proc-fwd", "poison1", ...
+	Pre  [][]string `json:"pre"`            // per run: facts about the process before the run (see preFacts)
 }
 
 // A Go struct family registered under two names each, exactly as the library's
@@ -65,22 +88,127 @@ func registerDetTypes(env *zygo.Zlisp) {
 	env.AddFunction("detinner", ctor)
 }
 
-var stackRe = regexp.MustCompile(`(?s)stack trace:.*`)
-var gorRe = regexp.MustCompile(`goroutine \d+`)
+// ---------------------------------------------------------------- what is compared
+//
+// The statement exempts "the explicit random, time and pointer-printing functions" and nothing else.
+// Pointer printing is explicit where the library formats an address with %p on purpose: the printed form
+// of a pointer value (made with & or declared with (* T)), the %p verb of printf, and the identity that
+// the dumps of scopes and stacks (packages, _ls, _closdump) put in parentheses after a name. Those, and
+// only those, are masked:
+//   - the Show family by its own three shapes (showRes), in every program;
+//   - any address, in the programs that use an explicit pointer function (usesPointerFns).
+// Addresses that reach the output any other way -- the Go-syntax dump of a value handed to fmt, the stack
+// trace of a recovered panic with its goroutine number -- are compared as they are.
 
-func maskErr(s string) string {
-	s = stackRe.ReplaceAllString(s, "stack trace: <cut>")
-	s = gorRe.ReplaceAllString(s, "goroutine N")
-	s = addrRe.ReplaceAllString(s, "0xADDR")
-	return trunc(s, 600)
+var showRes = []*regexp.Regexp{
+	regexp.MustCompile(` \(0x[0-9a-f]+\)`),                      // "scope Name: 'x' (0xc000123456)", "global (0x...)"
+	regexp.MustCompile(`env\(0x[0-9a-f]+\)`),                    // "env(0x...).linearstack is 1 deep"
+	regexp.MustCompile(`already-saw (Stack|Scope) 0x[0-9a-f]+`), // "(package i already-saw Stack 0x... in Show )"
+}
+var showRepl = []string{" (0xSHOW)", "env(0xSHOW)", "already-saw $1 0xSHOW"}
+
+var ampRe = regexp.MustCompile(`(^|[\s({\[])&[A-Za-z]`)                                // the reader's &a
+var ptrTypeRe = regexp.MustCompile(`(\(var\s+\S+\s+|\(def\s+\S+\s+|:\s*)\(\*\s`) // a variable or field of a pointer type (* T)
+
+func usesPointerFns(text string) bool {
+	return strings.Contains(text, "(&") || strings.Contains(text, "%p") || strings.Contains(text, "(ptr ") ||
+		ampRe.MatchString(text) || ptrTypeRe.MatchString(text)
+}
+
+func mask(text, s string) string {
+	for i, re := range showRes {
+		s = re.ReplaceAllString(s, showRepl[i])
+	}
+	if usesPointerFns(text) {
+		s = addrRe.ReplaceAllString(s, "0xADDR")
+	}
+	return s
+}
+
+// ---------------------------------------------------------------- facts about the process (pre)
+
+func goRegistered(rt *zygo.RegisteredType) bool {
+	// hasShadowStruct: registered from Go (RegisterUserdef(rt, true, ...)), not declared by a script
+	return reflect.ValueOf(rt).Elem().FieldByName("hasShadowStruct").Bool()
+}
+
+var identRe = regexp.MustCompile(`[A-Za-z_][A-Za-z0-9_]*`)
+var structDeclRe = regexp.MustCompile(`\(struct\s+([A-Za-z_][A-Za-z0-9_]*)`)
+var declRe = regexp.MustCompile(`\((?:struct|defmap)\s+([A-Za-z_][A-Za-z0-9_]*)`)
+
+var commentRe = regexp.MustCompile(`//[^\n]*`)
+
+var goBase map[string]bool // the Go-registered names of this process when its first interpreter was set up
+
+func sha8(s string) string { return fmt.Sprintf("%x", sha256.Sum256([]byte(s)))[:8] }
+
+// preFacts: what the process holds, before the run, of the things a named deviation speaks about.
+//
+//	T:<name>:<digest>  a struct declaration of <name> made by a script of an EARLIER interpreter, when the
+//	                   program uses <name> and does not itself declare (struct <name> ...)
+//	L:<digest>         the registered-type list, when the program asks for it (typelist)
+//	G:<digest>         the Go types registered since the process started (by a script: registerDemoFunctions)
+func preFacts(text string) []string {
+	facts := []string{}
+	mention := map[string]bool{}
+	for _, w := range identRe.FindAllString(text, -1) {
+		mention[w] = true
+	}
+	own := map[string]bool{}
+	for _, m := range structDeclRe.FindAllStringSubmatch(text, -1) {
+		own[m[1]] = true
+	}
+	var goNew []string
+	for name, rt := range zygo.GoStructRegistry.Userdef {
+		if goRegistered(rt) {
+			if !goBase[name] {
+				goNew = append(goNew, name)
+			}
+			continue
+		}
+		if rt.UserStructDefn != nil && mention[name] && !own[name] {
+			facts = append(facts, "T:"+name+":"+sha8(rt.UserStructDefn.SexpString(nil)))
+		}
+	}
+	if strings.Contains(text, "typelist") {
+		facts = append(facts, "L:"+sha8(strings.Join(zygo.ListRegisteredTypes, ",")))
+	}
+	if len(goNew) > 0 {
+		sort.Strings(goNew)
+		facts = append(facts, "G:"+sha8(strings.Join(goNew, ",")))
+	}
+	sort.Strings(facts)
+	return facts
+}
+
+// ---------------------------------------------------------------- one run
+
+var nodemo bool // this process's host has not registered the demo Go types
+
+func setup() *zygo.Zlisp {
+	env := zygo.NewZlisp()
+	env.StandardSetup()
+	if !nodemo {
+		env.ImportDemoData()
+		registerDetTypes(env)
+	}
+	return env
 }
 
 // observe runs text in a fresh interpreter and captures stdout.
-func observe(text string) any {
-	env := zygo.NewZlisp()
-	env.StandardSetup()
-	env.ImportDemoData()
-	registerDetTypes(env)
+func observe(text string) (obs any, pre []string) {
+	if goBase == nil {
+		e := setup() // what the host registers is registered from here on
+		e.Close()
+		goBase = map[string]bool{}
+		for name, rt := range zygo.GoStructRegistry.Userdef {
+			if goRegistered(rt) {
+				goBase[name] = true
+			}
+		}
+	}
+	pre = preFacts(text)
+	env := setup()
 	defer env.Close()
 	old := os.Stdout
 	r, w, err := os.Pipe()
@@ -103,13 +231,14 @@ func observe(text string) any {
 		// every (symnum (quote NAME)) at once: the whole name->number table after the evaluation
 		out += symtabDigest(env)
 	}
+	out = trunc(mask(text, out), 2000)
 	switch o.Kind {
 	case "val":
-		return []any{"val", addrRe.ReplaceAllString(o.Val.SexpString(nil), "0xADDR"), trunc(out, 2000)}
+		return []any{"val", trunc(mask(text, o.Val.SexpString(nil)), 3000), out}, pre
 	case "err":
-		return []any{"err", maskErr(o.Err), trunc(out, 2000)}
+		return []any{"err", trunc(mask(text, o.Err), 3000), out}, pre
 	}
-	return []any{o.Kind, maskErr(o.Err), trunc(out, 2000)}
+	return []any{o.Kind, trunc(mask(text, o.Err), 3000), out}, pre
 }
 
 const symtabProbe = ";;symtab\n"
@@ -136,27 +265,63 @@ func symtabDigest(env *zygo.Zlisp) string {
 	return fmt.Sprintf("symtab n=%d next=%d sha=%x %s", len(names), env.VerifNextSymbol(), h.Sum(nil)[:8], trunc(strings.Join(clear, " "), 1200))
 }
 
-// pollute: other interpreters created and used earlier in the process
-func pollute(i int) {
+// ---------------------------------------------------------------- polluters
+
+func runOthers(progs []string, rot int) {
 	env := zygo.NewZlisp()
 	env.StandardSetup()
 	defer env.Close()
+	quiet(func() {
+		for j := range progs {
+			evalSafe(env, progs[(rot+j*3)%len(progs)])
+		}
+	})
+}
+
+// pollute: other interpreters created and used earlier in the process. i varies the names and the order.
+func pollute(i int, text string) {
 	progs := []string{
 		fmt.Sprintf("(struct Pol%d [(field A: int64) (field B: string)])\n(def p (Pol%d A: 1))\n(json p)\n", i, i),
 		fmt.Sprintf("(defmap polm%d)\n(polm%d a: 1 b: 2)\n", i, i),
 		"(gensym)\n(gensym \"zz\")\n(def h (hash z: 1 y: 2 x: 3))\n(str h)\n",
 		fmt.Sprintf("(def q%d (package \"pq%d\" { A := 1 }))\n", i, i),
 		"(defn polf [a b] (+ a b))\n(polf 1 2)\n(msgpack (hash a: 1))\n",
-		"(def pilotType (* snoopy))\n(def s (snoopy cry: \"x\"))\n(def ps (& s))\n",
-		"(def ho (hornet nickname: \"b\"))\n(togo ho)\n(def pw (* weather))\n",
+		"(def x (& 34))\n(type? x)\n(def y (& \"s\"))\n(def z (& (hash a: 1)))\n",
+		fmt.Sprintf("(struct PolP%d [(field N: string)])\n(var pp (* PolP%d))\n(type? pp)\n(def sl (sliceOf PolP%d))\n(var vs ([]string))\n", i, i, i),
 	}
-	quiet(func() {
-		// every polluter, in an order that varies with i
-		for j := range progs {
-			evalSafe(env, progs[(i+j*3)%len(progs)])
+	if !nodemo {
+		progs = append(progs,
+			"(def pilotType (* snoopy))\n(def s (snoopy cry: \"x\"))\n(def ps (& s))\n",
+			"(def ho (hornet nickname: \"b\"))\n(togo ho)\n(def pw (* weather))\n")
+	} else {
+		// the script-facing registration of the demo Go types (tests/decl_pointer.zy does it)
+		progs = append(progs, "(registerDemoFunctions)\n")
+	}
+	runOthers(progs, i)
+	// for the case at hand: another interpreter declares a DIFFERENT struct under every struct, defmap and
+	// record-constructor name the program uses, makes one, and takes pointer and slice types of it
+	seen := map[string]bool{}
+	var clash []string
+	for _, m := range declRe.FindAllStringSubmatch(commentRe.ReplaceAllString(text, ""), -1) {
+		if n := m[1]; !seen[n] {
+			seen[n] = true
+			clash = append(clash, fmt.Sprintf("(struct %s [(field zzq: int64)])\n(def zq (%s zzq: 1))\n(var pz (* %s))\n(def sz (sliceOf %s))\n(def az (& zq))\n", n, n, n, n))
 		}
-	})
+	}
+	if len(clash) > 0 {
+		runOthers(clash, i)
+	}
 }
+
+// poisons: what a hostile (or careless) earlier interpreter can do to the tables every interpreter of the
+// process shares. Run once, first, in a process of their own kind.
+var poisons = map[int]string{
+	1: "(struct int64 [(field b: string)])\n(struct string [(field c: int64)])\n(struct hash [(field d: int64)])\n",
+	2: "(def p (& int64))\n(derefSet p string)\n(def q (& float64))\n(derefSet q bool)\n",
+	3: "(struct snoopy [(field zz: int64)])\n(struct nestinner [(field yy: string)])\n",
+}
+
+// ---------------------------------------------------------------- programs
 
 var determFixed = []string{
 	"(str (unjson (raw `{\"b\":1,\"a\":2,\"c\":3,\"d\":4,\"e\":5}`)))\n",
@@ -192,21 +357,136 @@ var determFixed = []string{
 	"(str (unjson (raw `[{\"a\":1,\"b\":2},{\"c\":{\"e\":1,\"d\":2}}]`)))\n",
 	"(for [(def i 0) (< i 3) (def i (+ i 1))] (println i))\n",
 	"(range k v (unjson (raw `{\"q\":1,\"p\":2,\"o\":3}`)) (println k v))\n",
+	// declared types: the type of a declared variable, a record of a struct, of a defmap, a struct that
+	// uses the builtin types, the type list
+	"(struct Cat [(field Name: string)])\n(var pcat (* Cat))\n(type? pcat)\n",
+	"(struct Cat [(field Name: string)])\n(var pcat (* Cat))\n(var sc ([]Cat))\n(list (type? pcat) (type? sc) (str pcat))\n",
+	"(var vi int64)\n(var vs string)\n(var vf float64)\n(var vb bool)\n[vi vs vf vb (str int64) (type? vi) (type? vs)]\n",
+	"(defmap Zebra)\n(str (Zebra a: \"text\"))\n",
+	"(struct Foo [(field a: int64) (field s: string) (field f: float64) (field b: bool)])\n(str (Foo a: 1 s: \"x\" f: 1.5 b: true))\n",
+	"(struct Node [(field next: (* Node)) (field v: int64)])\n(def n (Node v: 1))\n(def m (Node v: 2 next: (& n)))\n(:v (* (:next m)))\n",
+	"(def before (len (typelist)))\n(hash a: 1)\n[before (len (typelist))]\n",
+	"(len (typelist))\n",
+	"(def tl (typelist))\n(aget tl 0)\n",
 }
 
-func determPrograms(c *common) (ids, srcs, texts []string) {
-	add := func(src, text string) {
-		ids = append(ids, fmt.Sprintf("d%d", len(ids)))
-		srcs = append(srcs, src)
-		texts = append(texts, text)
+// programs for a host that has not registered the demo Go types
+var determNodemo = []string{
+	"[(gensym) (symnum (quote foo))]\n",
+	"(str (snoopy cry: \"x\"))\n",
+	symtabProbe + "1\n",
+	"(list (symnum (quote hornet)) (symnum (quote int64)))\n",
+	"(struct Dn [(field a: int64)])\n(str (Dn a: 1))\n",
+}
+
+// Walks: programs whose result is picked by the FIRST of k >= 2 candidates that a walk over a Go map meets
+// (Process.tla explores the orders of such walks over the live tables): a record with several fields that
+// its Go struct cannot take (SexpToGoStructs names one of them in the error), with several unknown fields,
+// a package that binds one package, hash or function under several names (the printer spells the value out
+// once and refers back to it afterwards). These are repeated more often.
+type walkRec struct {
+	ctor string
+	bad  []string // field: value of the wrong kind
+}
+
+var walkRecs = []walkRec{
+	{"snoopy", []string{"cry: 1", "id: \"x\"", "pack: 3", "speed: \"y\"", "carrying: 7"}},
+	{"hornet", []string{"Nickname: 4", "Mass: \"m\"", "id: \"i\"", "speed: [1]"}},
+	{"weather", []string{"size: \"big\"", "type: 9", "details: 1.5"}},
+	{"persondemo", []string{"first: 1", "last: 2"}},
+	{"eventdemo", []string{"id: \"a\"", "flight: 7", "cancelled: \"no\"", "pilot: 3"}},
+	{"snoopy", []string{"nosuch1: 1", "nosuch2: 2", "nosuch3: 3"}},
+}
+
+func determWalks(seed int64, thorough bool) (out []string) {
+	for wi, w := range walkRecs {
+		n := len(w.bad)
+		for m := 1; m < 1<<n; m++ {
+			var fs []string
+			for b := 0; b < n; b++ {
+				if m>>b&1 == 1 {
+					fs = append(fs, w.bad[b])
+				}
+			}
+			if len(fs) < 2 || (!thorough && !hashSel(seed, wi*64+m, 1, 3)) {
+				continue
+			}
+			out = append(out, fmt.Sprintf("(togo (%s %s))\n", w.ctor, strings.Join(fs, " ")))
+		}
+	}
+	inner := []string{"(package \"i\" { X := 1 })", "(hash a: 1 b: (hash c: 2))", "(fn [x] x)", "[1 [2 3]]"}
+	for _, in := range inner {
+		out = append(out,
+			fmt.Sprintf("(def outer (package \"o\" { A := %s; B := A; C := A }))\n(str outer)\n", in),
+			fmt.Sprintf("(def outer (package \"o\" { Z := %s; M := Z; A := Z; Q := 4 }))\n(str outer)\n", in))
+	}
+	out = append(out,
+		"(def outer (package \"o\" { A := (package \"i\" { X := 1 }); B := A; C := (package \"j\" { Y := A; W := A }); D := C }))\n(str outer)\n")
+	return
+}
+
+// Calls that fail: every function and builder of the global scope (but those that touch files, processes,
+// channels, the clock or randomness, and the explicit pointer functions) is called with values it does
+// not take, and every kind of value is called as if it were a function; the error texts quote the values.
+var errcallDeny = []string{"bload", "bsave", "exit", "getenv", "setenv", "gob", "greenpack", "import", "makeChan", "send", "<!",
+	"now", "date", "millis", "nextBusinessDay", "dur", "owritef", "random", "save", "slurpf", "source", "stop", "sys", "system",
+	"timeit", "writef", "ptr", "&", "dump", "registerDemoFunctions", "expectError", "req", "read"}
+
+var errcallPool = []string{"(hash a: 1)", "[1 2]", "(list 1 2)", "(quote s)", "\"str\"", "(fn [x] x)", "2.5", "nil", "(hash k: [1 (hash z: 2)])", "7"}
+
+func determErrcalls(seed int64, thorough bool) (out []string) {
+	env := zygo.NewZlisp()
+	env.StandardSetup()
+	defer env.Close()
+	idx := 0
+	for _, name := range env.VerifGlobalNames() {
+		k := env.VerifGlobalKind(name)
+		if k != "gofunc" && k != "builder" || contains(errcallDeny, name) {
+			continue
+		}
+		idx++
+		a := errcallPool[idx%len(errcallPool)]
+		b := errcallPool[(idx/3+5)%len(errcallPool)]
+		shapes := []string{
+			fmt.Sprintf("(%s %s)\n", name, a),
+			fmt.Sprintf("(%s %s %s)\n", name, b, a),
+			fmt.Sprintf("(%s %s %s %s)\n", name, a, a, b),
+		}
+		for si, s := range shapes {
+			if thorough || hashSel(seed, idx*4+si, 1, 4) {
+				out = append(out, s)
+			}
+		}
+	}
+	for _, v := range errcallPool {
+		out = append(out, fmt.Sprintf("(%s 1)\n", v), fmt.Sprintf("(def v %s)\n(v (hash a: 1) [2])\n", v))
+	}
+	for _, v := range errcallPool[:6] {
+		out = append(out, fmt.Sprintf("(sprintf \"%%v|%%v\" %s 1)\n", v), fmt.Sprintf("(printf \"%%v %%s\\n\" 2 %s)\n", v))
+	}
+	return
+}
+
+func determPrograms(c *common) (cases []determCase) {
+	add := func(src, text string, reps int) {
+		cases = append(cases, determCase{ID: fmt.Sprintf("d%d", len(cases)), Src: src, Text: text, Reps: reps})
 	}
 	for _, t := range determFixed {
-		add("fixed", t)
+		add("fixed", t, 0)
+	}
+	for _, t := range determNodemo {
+		add("nodemo", t, 0)
+	}
+	for _, t := range determWalks(c.seed, c.thorough()) {
+		add("walk", t, 10)
+	}
+	for _, t := range determErrcalls(c.seed, c.thorough()) {
+		add("errcall", t, 2)
 	}
 	for i, t := range sessionCatalogue {
-		add("catalogue", asText(inst(t, 500000+i))+"\n")
+		add("catalogue", asText(inst(t, 500000+i))+"\n", 0)
 	}
-	// corpus scripts that touch neither files, processes, time nor randomness
+	// corpus scripts that touch neither files, processes, channels, time nor randomness
 	files, _ := filepath.Glob("/repo/tests/*.zy")
 	sort.Strings(files)
 	for _, f := range files {
@@ -216,18 +496,18 @@ func determPrograms(c *common) (ids, srcs, texts []string) {
 		}
 		src := string(b)
 		skip := false
-		for _, w := range []string{"system", "source", "slurp", "owrite", "import", "chan", "save", "sleep", "include", "random", "now", "time", "req ", "readf", "flatten", "stdin", "gob", "regexp", "timeit", "sys ", "setenv", "getenv", "ptr", "(&", "%p", "registerDemoFunctions", "gensym"} {
+		for _, w := range []string{"system", "source", "slurp", "owrite", "import", "chan", "save", "sleep", "include", "random", "now", "time", "req ", "readf", "stdin", "gob", "regexp", "timeit", "sys ", "setenv", "getenv"} {
 			if strings.Contains(src, w) {
 				skip = true
 			}
 		}
 		if !skip {
-			add("corpus:"+filepath.Base(f), src)
+			add("corpus:"+filepath.Base(f), src, 0)
 		}
 	}
 	n := c.n
 	if n == 0 {
-		n = 150
+		n = 120
 		if c.thorough() {
 			n = 3000
 		}
@@ -236,147 +516,247 @@ func determPrograms(c *common) (ids, srcs, texts []string) {
 		r := newRng(c.seed, uint64(i)+777)
 		prog := genProgram(r, semSlices["mixed"], 2)
 		text := strings.ReplaceAll(renderProgram(prog, nil), "(tr ", "(println ")
-		add("generated", text)
+		add("generated", text, 0)
 	}
 	return
+}
+
+// ---------------------------------------------------------------- walks of the live tables (for Process.tla)
+
+// dumpWalks: for every modelled walk, the entries in the order a repaired walk follows (insertion order)
+// and the class of each: a scan returns the name of the first entry of the class it looks for.
+func dumpWalks(env *zygo.Zlisp) []any {
+	var walks []any
+	// registry: entry name -> Go type of the factory's product (fillHashHelper, CallGoMethodFunction)
+	names := append([]string(nil), zygo.ListRegisteredTypes...)
+	seen := map[string]bool{}
+	for _, n := range names {
+		seen[n] = true
+	}
+	var rest []string
+	for n := range zygo.GoStructRegistry.Registry {
+		if !seen[n] {
+			rest = append(rest, n)
+		}
+	}
+	sort.Strings(rest)
+	names = append(names, rest...)
+	entries := []any{}
+	for _, n := range names {
+		ty := "<nil>"
+		func() {
+			defer func() {
+				if r := recover(); r != nil {
+					ty = "<error>"
+				}
+			}()
+			f := zygo.GoStructRegistry.Registry[n]
+			if f == nil || f.Factory == nil {
+				return
+			}
+			st, err := f.Factory(env, nil)
+			if err != nil {
+				ty = "<error>"
+				return
+			}
+			if st != nil {
+				ty = reflect.TypeOf(st).String()
+			}
+		}()
+		entries = append(entries, []any{n, ty})
+	}
+	walks = append(walks, map[string]any{"name": "registry", "entries": entries})
+	// records: field (in key order) -> "bad" when the Go struct cannot take the value alone, else "ok"
+	for _, w := range walkRecs {
+		entries := []any{}
+		for _, f := range w.bad {
+			cls := "ok"
+			var o outcome
+			quiet(func() { o = evalSafe(env, fmt.Sprintf("(togo (%s %s))\n", w.ctor, f)) })
+			if o.Kind != "val" {
+				cls = "bad"
+			}
+			entries = append(entries, []any{strings.SplitN(f, ":", 2)[0], cls})
+		}
+		walks = append(walks, map[string]any{"name": "record:" + w.ctor, "entries": entries})
+	}
+	// scope of a package: member (in name order) -> identity class of its value
+	walks = append(walks, map[string]any{"name": "scope:o", "entries": []any{
+		[]any{"A", "pkg-i"}, []any{"B", "pkg-i"}, []any{"C", "pkg-j"}, []any{"D", "pkg-j"}, []any{"Q", "<nil>"}}})
+	return walks
+}
+
+// ---------------------------------------------------------------- workers
+
+type workerOut struct {
+	ID   string     `json:"id"`
+	Obs  []any      `json:"obs"`
+	Runs []string   `json:"runs"`
+	Pre  [][]string `json:"pre"`
+}
+
+func determWorker(c *common, mode string, order, poison int) int {
+	var cases []determCase
+	readLines(c.in, func(line []byte) {
+		var in determCase
+		if json.Unmarshal(line, &in) == nil {
+			cases = append(cases, in)
+		}
+	})
+	label := mode
+	switch order {
+	case 0:
+	case 1:
+		for i, j := 0, len(cases)-1; i < j; i, j = i+1, j-1 {
+			cases[i], cases[j] = cases[j], cases[i]
+		}
+	default:
+		r := newRng(c.seed, uint64(order)*7919)
+		for i := len(cases) - 1; i > 0; i-- {
+			j := r.intn(i + 1)
+			cases[i], cases[j] = cases[j], cases[i]
+		}
+	}
+	if mode == "proc" {
+		label = fmt.Sprintf("proc-o%d", order)
+	}
+	if poison > 0 {
+		label = fmt.Sprintf("poison%d", poison)
+		runOthers([]string{poisons[poison]}, 0)
+	}
+	w := newWriter(c.out)
+	defer w.close()
+	for i, cc := range cases {
+		o := workerOut{ID: cc.ID}
+		reps := 1
+		if mode == "seq" {
+			reps = cc.Reps
+			if reps == 0 {
+				reps = 4
+			}
+		}
+		for k := 0; k < reps; k++ {
+			obs, pre := observe(cc.Text)
+			o.Obs = append(o.Obs, obs)
+			o.Pre = append(o.Pre, pre)
+			if mode == "seq" {
+				o.Runs = append(o.Runs, fmt.Sprintf("seq%d", k))
+				if k < 4 {
+					pollute(i*7+k, cc.Text)
+				}
+			} else {
+				o.Runs = append(o.Runs, label)
+			}
+		}
+		w.write(o)
+	}
+	return 0
 }
 
 func init() {
 	register("determ", "C20: repeated runs in fresh interpreters and fresh processes", func(args []string) int {
 		var worker, registry bool
+		var mode string
+		var order, poison int
 		c := commonFlags("determ", args, func(fs *flag.FlagSet) {
-			fs.BoolVar(&worker, "worker", false, "internal: observe every text of -in once, write to -out")
-			fs.BoolVar(&registry, "registry", false, "dump the live type registry (name, Go type of the factory's product)")
+			fs.BoolVar(&worker, "worker", false, "internal: observe every text of -in, write to -out")
+			fs.StringVar(&mode, "mode", "proc", "internal: worker mode, seq (repeated, with other interpreters in between) or proc (once)")
+			fs.IntVar(&order, "order", 0, "internal: worker order of the cases, 0 forward, 1 backward, n shuffled")
+			fs.IntVar(&poison, "poison", 0, "internal: the worker's first interpreter runs poison n")
+			fs.BoolVar(&nodemo, "nodemo", false, "internal: the worker's host does not register the demo Go types")
+			fs.BoolVar(&registry, "registry", false, "dump the walks of the live tables (registry, record fields, scope members)")
 		})
 		if registry {
-			env := zygo.NewZlisp()
-			env.StandardSetup()
-			env.ImportDemoData()
-			registerDetTypes(env)
-			// registration order (the order the repaired scans follow)
-			names := append([]string(nil), zygo.ListRegisteredTypes...)
-			seen := map[string]bool{}
-			for _, n := range names {
-				seen[n] = true
-			}
-			var rest []string
-			for n := range zygo.GoStructRegistry.Registry {
-				if !seen[n] {
-					rest = append(rest, n)
-				}
-			}
-			sort.Strings(rest)
-			names = append(names, rest...)
-			entries := []any{}
-			for _, n := range names {
-				ty := "<nil>"
-				func() {
-					defer func() {
-						if r := recover(); r != nil {
-							ty = "<error>"
-						}
-					}()
-					f := zygo.GoStructRegistry.Registry[n]
-					if f == nil || f.Factory == nil {
-						return
-					}
-					st, err := f.Factory(env, nil)
-					if err != nil {
-						ty = "<error>"
-						return
-					}
-					if st != nil {
-						ty = reflect.TypeOf(st).String()
-					}
-				}()
-				entries = append(entries, []any{n, ty})
-			}
+			env := setup()
 			w := newWriter(c.out)
-			w.write(map[string]any{"entries": entries})
+			walks := dumpWalks(env)
+			w.write(map[string]any{"entries": walks[0].(map[string]any)["entries"], "walks": walks})
 			w.close()
 			return 0
 		}
 		if worker {
-			w := newWriter(c.out)
-			defer w.close()
-			readLines(c.in, func(line []byte) {
-				var in determCase
-				if json.Unmarshal(line, &in) == nil {
-					w.write(map[string]any{"id": in.ID, "obs": observe(in.Text)})
-				}
-			})
-			return 0
+			return determWorker(c, mode, order, poison)
 		}
 		var cases []determCase
 		if c.replay != "" {
 			readLines(c.replay, func(line []byte) {
 				var in determCase
 				if json.Unmarshal(line, &in) == nil {
-					in.Obs, in.Runs = nil, nil
+					in.Obs, in.Runs, in.Pre = nil, nil, nil
 					cases = append(cases, in)
 				}
 			})
 		} else {
-			ids, srcs, texts := determPrograms(c)
-			for i := range ids {
+			for i, cc := range determPrograms(c) {
 				if c.mine(i) {
-					cases = append(cases, determCase{ID: ids[i], Src: srcs[i], Text: texts[i]})
+					cases = append(cases, cc)
 				}
 			}
 		}
-		// in-process runs: fresh interpreters, other interpreters created and used in between
-		for i := range cases {
-			for k := 0; k < 4; k++ {
-				cases[i].Obs = append(cases[i].Obs, observe(cases[i].Text))
-				if k == 0 {
-					cases[i].Runs = append(cases[i].Runs, "inproc")
-				} else {
-					cases[i].Runs = append(cases[i].Runs, "inproc-after-others")
-				}
-				pollute(i*7 + k)
-			}
-		}
-		// fresh processes
 		tmp, err := os.MkdirTemp("", "zvdeterm")
 		if err != nil {
 			fatal("%v", err)
 		}
 		defer os.RemoveAll(tmp)
-		inFile := filepath.Join(tmp, "in.ndjson")
-		iw := newWriter(inFile)
-		for _, cc := range cases {
-			iw.write(determCase{ID: cc.ID, Text: cc.Text})
-		}
-		iw.close()
 		self, _ := os.Executable()
+		byID := map[string]*determCase{}
+		for i := range cases {
+			byID[cases[i].ID] = &cases[i]
+		}
+		nrun := 0
+		run := func(sel func(cc determCase) bool, flags ...string) {
+			nrun++
+			tag := fmt.Sprintf("w%d", nrun)
+			inFile := filepath.Join(tmp, tag+".in.ndjson")
+			iw := newWriter(inFile)
+			n := 0
+			for _, cc := range cases {
+				if sel(cc) {
+					iw.write(determCase{ID: cc.ID, Text: cc.Text, Reps: cc.Reps})
+					n++
+				}
+			}
+			iw.close()
+			if n == 0 {
+				return
+			}
+			out := filepath.Join(tmp, tag+".out.ndjson")
+			a := append([]string{"determ", "-worker", "-seed", fmt.Sprint(c.seed), "-in", inFile, "-out", out}, flags...)
+			cmd := exec.Command(self, a...)
+			cmd.Dir = tmp
+			cmd.Env = append(os.Environ(), "GOMAXPROCS=2")
+			cmd.Stderr = os.Stderr
+			if err := cmd.Run(); err != nil {
+				fatal("determ worker %v: %v", flags, err)
+			}
+			readLines(out, func(line []byte) {
+				var r workerOut
+				if json.Unmarshal(line, &r) == nil {
+					if cc := byID[r.ID]; cc != nil {
+						cc.Obs = append(cc.Obs, r.Obs...)
+						cc.Runs = append(cc.Runs, r.Runs...)
+						cc.Pre = append(cc.Pre, r.Pre...)
+					}
+				}
+			})
+		}
+		demo := func(cc determCase) bool { return cc.Src != "nodemo" }
+		bare := func(cc determCase) bool { return cc.Src == "nodemo" }
+		probes := func(cc determCase) bool { return cc.Src == "fixed" || cc.Src == "walk" }
 		nproc := 3
 		if c.thorough() {
 			nproc = 6
 		}
+		run(demo, "-mode", "seq")
 		for p := 0; p < nproc; p++ {
-			out := filepath.Join(tmp, fmt.Sprintf("out%d.ndjson", p))
-			cmd := exec.Command(self, "determ", "-worker", "-in", inFile, "-out", out)
-			cmd.Dir = tmp
-			if err := cmd.Run(); err != nil {
-				fatal("determ worker: %v", err)
-			}
-			byID := map[string]any{}
-			readLines(out, func(line []byte) {
-				var r struct {
-					ID  string `json:"id"`
-					Obs any    `json:"obs"`
-				}
-				if json.Unmarshal(line, &r) == nil {
-					byID[r.ID] = r.Obs
-				}
-			})
-			for i := range cases {
-				if o, ok := byID[cases[i].ID]; ok {
-					cases[i].Obs = append(cases[i].Obs, o)
-					cases[i].Runs = append(cases[i].Runs, "process")
-				}
-			}
+			run(demo, "-mode", "proc", "-order", fmt.Sprint(p))
 		}
+		run(probes, "-mode", "proc", "-poison", "1")
+		run(probes, "-mode", "proc", "-poison", "2")
+		run(probes, "-mode", "proc", "-poison", "3")
+		run(bare, "-mode", "seq", "-nodemo")
+		run(bare, "-mode", "proc", "-nodemo", "-order", "0")
+		run(bare, "-mode", "proc", "-nodemo", "-order", "1")
 		w := newWriter(c.out)
 		defer w.close()
 		for _, cc := range cases {
